@@ -100,12 +100,15 @@ Definition get_map (h : mheap) (i : nat) : option mstore := nth_error (mh_maps h
 
 Inductive mop :=
 | MLit (es : list entry)                 (* map literal: listMap.New(n) + Append per entry; FromMap *)
+| MLitN (size : nat) (es : list entry)   (* a library builder: listMap.New(size) + Append per entry, e.g. minMax: New(3)
+                                            and five entries - the resulting ListMap may have spare capacity *)
 | MPut (a : nat) (k : str) (v : val)     (* put(k, v): AppendMap, error when the key exists *)
 | MMerge (a b : nat)                     (* a + b: MergeMap, error when a key of b exists in a *)
 | MReplace (a : nat) (k : str) (v : val) (* replace(m->{k:v}) *)
 | MMapV (a : nat) (d : Z)                (* map((k,v)->v+d): builder *)
 | MAccept (a : nat) (d : Z)              (* accept((k,v)->v<d): builder *)
 | MEval (a : nat).                       (* eval(): RealMap *)
+Arguments MLitN size%nat es.
 Arguments MPut a%nat k v%Z.
 Arguments MMerge a%nat b%nat.
 Arguments MReplace a%nat k v%Z.
@@ -124,6 +127,7 @@ Definition mstep (h : mheap) (o : mop) : mheap :=
   let arrs := mh_arrs h in
   match o with
   | MLit es => let '(arrs', l) := lm_build arrs (length es) es in add_map h arrs' (SList l)
+  | MLitN size es => let '(arrs', l) := lm_build arrs size es in add_map h arrs' (SList l)
   | MPut a k v =>
       match get_map h a with
       | Some m => if has_key arrs m k then h else add_map h arrs (SAppend k v m)
@@ -201,6 +205,7 @@ Definition mpstep (ps : mpstate) (o : mop) : mpstate :=
   let have a := a <? length ps in
   match o with
   | MLit es => ps ++ [sort_entries (pl_build es)]
+  | MLitN _ es => ps ++ [sort_entries (pl_build es)]
   | MPut a k v => if have a && negb (phas (get a) k) then ps ++ [sort_entries ((k, v) :: get a)] else ps
   | MMerge a b => if have a && have b && negb (existsb (fun e => phas (get a) (fst e)) (get b))
                   then ps ++ [sort_entries (get a ++ get b)] else ps
